@@ -206,10 +206,27 @@ def run(ctx):
                 opt = a[4]
                 level = is_call(opt) and callee_name(opt[1]) == "level"
     accepts = [bb for bb, t in hh.calls() if callee_name(t["fn"].get("path", "")) == "accept"]
+    # "drained": accept() sits in a loop that is left only on edges where this accept returned Err (WouldBlock or a real error);
+    # a loop that can also stop on a counter leaves connections behind, which an edge-triggered listener never reports again
     drains = bool(accepts) and all(hh.in_loop(b) for b in accepts)
+    if drains:
+        HIN = flow.must_facts(hh, hev)
+        hef = flow.edge_facts(hh, hev)
+        for ab in accepts:
+            act = hev.call_term(ab)
+            for lp in hh.in_loop(ab):
+                for (src, dst) in lp["exits"]:
+                    fs = set(HIN.get(src, frozenset())) | set(hef.get((src, dst), ()))
+                    rels = []
+                    for f in fs:
+                        rels.extend(flow.relational(f))
+                    on_err = any(r[0] == "Eq" and isinstance(r[1], tuple) and r[1][0] == "discr" and values.strip_payload(r[1][1]) == act and r[2] == ("int", 1) for r in rels) \
+                        or any(r[0] == "Ne" and isinstance(r[1], tuple) and r[1][0] == "discr" and values.strip_payload(r[1][1]) == act and r[2] == ("int", 0) for r in rels)
+                    if not on_err:
+                        drains = False
     ctx.check("health-check", "every-pending-connection-is-served", bool(level) or drains,
               "listener is %s" % ("level-triggered: it keeps signalling while connections are pending" if level else "drained until WouldBlock"),
-              "the listener is edge-triggered but the handler accepts a single connection per event: connections arriving together are left waiting", ctx.loc(hh))
+              "the listener is edge-triggered but the handler can stop accepting while connections are still pending (single accept, or a loop with an exit other than accept() failing): those connections are never answered", ctx.loc(hh))
 
     # ------------------------------------------------------------------ (6) example.cfg
     txt = ctx.read_repo_file("example.cfg")
